@@ -384,12 +384,12 @@ class CIMDateTime(_CIMComparisonMixin, CIMType):
     cimtype = 'datetime'
 
     _timestamp_pattern = re.compile(
-        r'^([\d\*]{4})([\d\*]{2})([\d\*]{2})'
-        r'([\d\*]{2})([\d\*]{2})([\d\*]{2})\.([\d\*]{6})'
-        r'([+-])(\d{3})\Z')
+        r'^([0-9\*]{4})([0-9\*]{2})([0-9\*]{2})'
+        r'([0-9\*]{2})([0-9\*]{2})([0-9\*]{2})\.([0-9\*]{6})'
+        r'([+-])([0-9]{3})\Z')
 
     _interval_pattern = re.compile(
-        r'^([\d\*]{8})([\d\*]{2})([\d\*]{2})([\d\*]{2})\.([\d\*]{6})'
+        r'^([0-9\*]{8})([0-9\*]{2})([0-9\*]{2})([0-9\*]{2})\.([0-9\*]{6})'
         r'(:)(000)\Z')
 
     def __init__(self, dtarg):
